@@ -107,7 +107,18 @@ def same_list(e, xs, ys, what):
 
 def check_views(e: Engine, m, pairs, probe):
     """every observable view of the real mapping agrees with the model list"""
-    same_list(e, m.multi_items(), pairs, "multi_items")
+    handed_out = m.multi_items()
+    same_list(e, handed_out, pairs, "multi_items")
+    # what a view hands out is the caller's to edit: the mapping must not change with it
+    if isinstance(handed_out, list):
+        handed_out.append(("junk-key", "junk-value"))
+        handed_out.reverse()
+        same_list(e, m.multi_items(), pairs, "multi_items-after-the-caller-edited-an-earlier-result")
+    for k_ in m_keys(pairs)[:1]:
+        got_ = m.getlist(k_)
+        if isinstance(got_, list):
+            got_.append("junk-value")
+            same_list(e, m.getlist(k_), m_vals(pairs, k_), "getlist-after-the-caller-edited-an-earlier-result")
     ks = m_keys(pairs)
     real_keys = list(m.keys())
     if len(real_keys) != len(ks) or len(m) != len(ks):
@@ -269,6 +280,7 @@ def concrete_check(op, init, k, v, w, k2, probe):
         siblings = [MultiMapping(raw), QueryParams(raw)]
         m = MutableMultiMapping(raw)
         siblings += [MutableMultiMapping(m), QueryParams(m)]
+        siblings += [MutableMultiMapping(iter(raw)), QueryParams(p_ for p_ in raw), FormData(zip([a_ for a_, _ in raw], [b_ for _, b_ in raw]))]
         check_views(None, m, list(init), probe)
         pairs, kind = apply(op, m, list(init), k, v, w, k2)
         check_views(None, m, pairs, probe)
@@ -309,6 +321,8 @@ def run_job(job) -> report.JobResult:
         m = MutableMultiMapping(raw)
         if job.get("siblings", True):
             siblings += [MutableMultiMapping(m), QueryParams(m)]  # copies made FROM the mapping are independent of it too
+            # the pairs argument is any iterable: one-shot iterators (generator, zip, iter(list)) can be read only once
+            siblings += [MutableMultiMapping(iter(raw)), QueryParams(p_ for p_ in raw), FormData(zip([a_ for a_, _ in raw], [b_ for _, b_ in raw]))]
         check_views(cur(), m, list(init), SInt(pr))  # constructor establishes the invariant / views
         pairs, kind = apply(op, m, list(init), SInt(kk), SInt(vv), SInt(ww), SInt(k2))
         if twin:
